@@ -108,15 +108,27 @@ impl Default for Value {
 }
 
 impl From<Value> for serde_json::Value {
+    /// # Panics
+    ///
+    /// Panics if the value can't be serialized as JSON, see [`Value::try_into_json`].
     fn from(v: Value) -> Self {
-        match v {
-            Value::Null => Self::Null,
-            Value::Bool(b) => Self::Bool(b),
+        v.try_into_json().unwrap()
+    }
+}
+
+impl Value {
+    /// Converts the value into a `serde_json::Value`. Returns an error for mappings whose keys
+    /// can't be serialized as JSON keys.
+    pub(crate) fn try_into_json(self) -> Result<serde_json::Value> {
+        type Json = serde_json::Value;
+        Ok(match self {
+            Value::Null => Json::Null,
+            Value::Bool(b) => Json::Bool(b),
             Value::Number(n) => {
                 if n.is_nan() || n.is_infinite() {
                     // Render NaN and -+inf as strings, since JSON's number type doesn't support
                     // those values.
-                    return Self::String(n.to_string());
+                    return Ok(Json::String(n.to_string()));
                 }
                 let jn = if n.is_i64() {
                     // Integers are emitted as JSON integers so that they keep their exact value.
@@ -130,17 +142,17 @@ impl From<Value> for serde_json::Value {
                 };
                 serde_json::Value::Number(jn)
             }
-            Value::Literal(s) | Value::String(s) => Self::String(s),
+            Value::Literal(s) | Value::String(s) => Json::String(s),
             Value::Sequence(s) => {
-                let mut seq: Vec<Self> = Vec::with_capacity(s.len());
+                let mut seq: Vec<Json> = Vec::with_capacity(s.len());
                 for v in s {
-                    seq.push(Self::from(v));
+                    seq.push(v.try_into_json()?);
                 }
-                Self::Array(seq)
+                Json::Array(seq)
             }
-            Value::Mapping(m) => Self::Object(serde_json::Map::<String, Self>::from(m)),
+            Value::Mapping(m) => Json::Object(m.try_into_json()?),
             Value::ValueList(_) => todo!(),
-        }
+        })
     }
 }
 
@@ -504,11 +516,11 @@ impl Value {
             // work cleanly for embedded references in multiline strings which contain YAML, as the
             // indentation will break.
             Value::Mapping(m) => {
-                let m = serde_json::Map::<String, serde_json::Value>::from(m.clone());
+                let m = m.clone().try_into_json()?;
                 serde_json::to_string(&m).map_err(|e| anyhow!(e))
             }
             Value::Sequence(_) => {
-                let v = serde_json::Value::from(self.clone());
+                let v = self.clone().try_into_json()?;
                 serde_json::to_string(&v).map_err(|e| anyhow!(e))
             }
             Value::Number(n) => Ok(n.to_string()),
